@@ -280,4 +280,150 @@ theorem mem_iff {s e dur hop : Rat} {incl : Bool} {out : List (Rat × Rat)}
     have h2 := hw.2.1; rw [hw.1] at h2
     exact ⟨j, Nat.zero_le _, by have := window_lt_bound s e hop hh j h2; omega, hw⟩
 
+/-! ### review R-C14: closed-form count, name injectivity -/
+
+theorem natCast_lt_iff_lt_ceil_toNat (i : Nat) (q : Rat) : (i : Rat) < q ↔ i < q.ceil.toNat := by
+  rw [Int.lt_toNat]
+  constructor
+  · intro h
+    apply Int.not_le.1
+    intro h2
+    have := (Rat.ceil_le_iff (x := q) (y := (i : Int))).1 h2
+    have h3 : ((i : Int) : Rat) = (i : Rat) := by norm_cast
+    grind
+  · intro h
+    apply Rat.not_le.1
+    intro h2
+    have h3 : ((i : Int) : Rat) = (i : Rat) := by norm_cast
+    have := (Rat.ceil_le_iff (x := q) (y := (i : Int))).2 (by rw [h3]; exact h2)
+    omega
+
+theorem natCast_le_iff_le_floor_toNat (i : Nat) (q : Rat) (hq : 0 ≤ q) : (i : Rat) ≤ q ↔ i ≤ q.floor.toNat := by
+  have hf0 : 0 ≤ q.floor := Rat.le_floor_iff.2 (by simpa using hq)
+  rw [Int.le_toNat hf0, Rat.le_floor_iff]
+  have h3 : ((i : Int) : Rat) = (i : Rat) := by norm_cast
+  rw [h3]
+
+/-- the windows are exactly the lattice indices below the closed-form count -/
+theorem isWindow_iff_lt_count (s e dur hop : Rat) (incl : Bool) (hd : 0 < dur) (hh : 0 < hop) (i : Nat) :
+    isWindow s e dur hop incl i = true ↔ i < count s e dur hop incl := by
+  rw [isWindow_iff]
+  unfold count
+  cases incl with
+  | true =>
+    simp only [true_or, and_true, if_true]
+    rw [← natCast_lt_iff_lt_ceil_toNat, Rat.lt_div_iff hh]
+    grind
+  | false =>
+    simp only [Bool.false_eq_true, false_or, if_false]
+    have hi : 0 ≤ (i : Rat) * hop := Rat.mul_nonneg (by exact_mod_cast Nat.zero_le i) (Rat.le_of_lt hh)
+    by_cases h1 : e - s < dur
+    · simp only [h1, if_true, Nat.not_lt_zero, iff_false]
+      grind
+    · simp only [h1, if_false]
+      have hq : 0 ≤ (e - s - dur) / hop := by
+        apply Rat.not_lt.1
+        intro hneg
+        have := (Rat.div_lt_iff hh).1 hneg
+        grind
+      rw [Nat.lt_succ_iff, ← natCast_le_iff_le_floor_toNat _ _ hq]
+      constructor
+      · rintro ⟨_, h3⟩
+        apply Rat.not_lt.1
+        intro h4
+        have := (Rat.div_lt_iff hh).1 h4
+        grind
+      · intro h3
+        have h5 : ¬ ((e - s - dur) / hop < (i : Rat)) := Rat.not_lt.2 h3
+        rw [Rat.div_lt_iff hh] at h5
+        grind
+
+theorem holdsFrom_windows (s e dur hop : Rat) (incl : Bool) :
+    ∀ (out : List (Rat × Rat)) (i : Nat), holdsFrom s e dur hop incl i out = true →
+      (∀ j, j < out.length → isWindow s e dur hop incl (i + j) = true) ∧
+      isWindow s e dur hop incl (i + out.length) = false := by
+  intro out
+  induction out with
+  | nil => intro i h; simpa [holdsFrom] using h
+  | cons p ps ih =>
+    intro i h
+    simp only [holdsFrom, Bool.and_eq_true] at h
+    obtain ⟨⟨h1, _⟩, h3⟩ := h
+    obtain ⟨a, b⟩ := ih (i+1) h3
+    constructor
+    · intro j hj
+      cases j with
+      | zero => simpa using h1
+      | succ j =>
+        have := a j (by simpa using hj)
+        have e : i + 1 + j = i + (j + 1) := by omega
+        rw [← e]; exact this
+    · have e : i + (p :: ps).length = i + 1 + ps.length := by simp; omega
+      rw [e]; exact b
+
+/-- the lattice point at or just below `x` (in units of `hop`) -/
+theorem floor_toNat_bounds (x hop : Rat) (hh : 0 < hop) (hx : 0 ≤ x) :
+    ((x / hop).floor.toNat : Rat) * hop ≤ x ∧ x < (((x / hop).floor.toNat : Rat) + 1) * hop := by
+  have hq : 0 ≤ x / hop := by
+    apply Rat.not_lt.1
+    intro hneg
+    have := (Rat.div_lt_iff hh).1 hneg
+    grind
+  have hf0 : 0 ≤ (x / hop).floor := Rat.le_floor_iff.2 (by simpa using hq)
+  have hcast : (((x / hop).floor.toNat : Nat) : Rat) = ((x / hop).floor : Rat) := by
+    have : (((x / hop).floor.toNat : Nat) : Int) = (x / hop).floor := Int.toNat_of_nonneg hf0
+    exact_mod_cast this
+  have hmul : x / hop * hop = x := by rw [Rat.div_mul_cancel]; grind
+  rw [hcast]
+  constructor
+  · have := Rat.mul_le_mul_of_nonneg_right (Rat.floor_le (x / hop)) (Rat.le_of_lt hh)
+    grind
+  · have h3 := Rat.lt_floor_add_one (x / hop)
+    have h4 : ((((x / hop).floor + 1 : Int)) : Rat) = ((x / hop).floor : Rat) + 1 := by norm_cast
+    rw [h4] at h3
+    have := Rat.mul_lt_mul_of_pos_right h3 hh
+    grind
+
+
+/-- two lists that agree up to the first `c` -/
+theorem split_at {c : Char} : ∀ (l1 l1' l2 l2' : List Char), c ∉ l1 → c ∉ l1' →
+    l1 ++ c :: l2 = l1' ++ c :: l2' → l1 = l1' ∧ l2 = l2' := by
+  intro l1
+  induction l1 with
+  | nil =>
+    intro l1' l2 l2' _ h' h
+    cases l1' with
+    | nil => simpa using h
+    | cons a t => simp at h h'; grind
+  | cons a t ih =>
+    intro l1' l2 l2' h1 h1' h
+    cases l1' with
+    | nil => simp at h h1; grind
+    | cons b t' =>
+      simp at h h1 h1'
+      obtain ⟨rfl, h⟩ := h
+      obtain ⟨r1, r2⟩ := ih t' l2 l2' h1.2 h1'.2 h
+      exact ⟨by rw [r1], r2⟩
+
+/-- a concrete formatting that satisfies the hypotheses of the name theorems (non-vacuity):
+    numerator in unary ('a' positive, 'b' negative), '/', denominator in unary -/
+def fmtU (x : Rat) : String :=
+  String.ofList (List.replicate x.num.toNat 'a' ++ List.replicate (-x.num).toNat 'b' ++ '/' :: List.replicate x.den 'c')
+
+theorem fmtU_noColon (x : Rat) : ':' ∉ (fmtU x).toList := by
+  simp [fmtU, List.mem_replicate]
+
+theorem fmtU_inj (x y : Rat) (h : fmtU x = fmtU y) : x = y := by
+  have h' := congrArg String.toList h
+  simp only [fmtU, String.toList_ofList] at h'
+  have n1 : ∀ z : Rat, '/' ∉ List.replicate z.num.toNat 'a' ++ List.replicate (-z.num).toNat 'b' := by
+    intro z; simp [List.mem_replicate]
+  obtain ⟨e1, e2⟩ := split_at _ _ _ _ (n1 x) (n1 y) h'
+  have hd : x.den = y.den := by simpa using congrArg List.length e2
+  have ha := congrArg (List.count 'a') e1
+  have hb := congrArg (List.count 'b') e1
+  simp [List.count_replicate] at ha hb
+  have hn : x.num = y.num := by omega
+  exact Rat.ext hn hd
+
 end SE.Proofs.SegmentLemmas
